@@ -85,7 +85,7 @@ impl Rec {
         self.log.lock().unwrap().push((self.label.clone(), k));
     }
 }
-impl<Foo: 'static> DataReaderListener<Foo> for Rec {
+impl<Foo: Send + 'static> DataReaderListener<Foo> for Rec {
     async fn on_data_available(&mut self, _r: DataReaderAsync<Foo>) { self.push("DA") }
     async fn on_sample_rejected(&mut self, _r: DataReaderAsync<Foo>, _s: SampleRejectedStatus) { self.push("SR") }
     async fn on_liveliness_changed(&mut self, _r: DataReaderAsync<Foo>, _s: LivelinessChangedStatus) { self.push("LC") }
@@ -94,7 +94,7 @@ impl<Foo: 'static> DataReaderListener<Foo> for Rec {
     async fn on_subscription_matched(&mut self, _r: DataReaderAsync<Foo>, _s: SubscriptionMatchedStatus) { self.push("SM") }
     async fn on_sample_lost(&mut self, _r: DataReaderAsync<Foo>, _s: SampleLostStatus) { self.push("SL") }
 }
-impl<Foo: 'static> DataWriterListener<Foo> for Rec {
+impl<Foo: Send + 'static> DataWriterListener<Foo> for Rec {
     async fn on_liveliness_lost(&mut self, _w: DataWriterAsync<Foo>, _s: LivelinessLostStatus) { self.push("LL") }
     async fn on_offered_deadline_missed(&mut self, _w: DataWriterAsync<Foo>, _s: OfferedDeadlineMissedStatus) { self.push("ODM") }
     async fn on_offered_incompatible_qos(&mut self, _w: DataWriterAsync<Foo>, _s: OfferedIncompatibleQosStatus) { self.push("OIQ") }
